@@ -39,6 +39,7 @@ type Scenario struct {
 	Threads [][]Op  `json:"threads"`
 	Scheds  [][]int `json:"scheds,omitempty"` // thread-id schedules to replay (mode sched)
 	Elt     int     `json:"elt,omitempty"`    // element size (default 8)
+	Rev     bool    `json:"rev,omitempty"`    // channel addresses descending with the index
 }
 
 // ---- one execution
@@ -51,9 +52,35 @@ func runOnce(sc *Scenario, strat gate.Strategy, spurious int) (explore.HistRec, 
 	if elt == 0 {
 		elt = 8
 	}
-	chans := make([]*chanimpl.Chan, len(sc.Caps))
+	// Select breaks ties by channel address: make the address order a controlled input
+	// (ascending with the channel index, or descending when the scenario says rev).
+	n := len(sc.Caps)
+	order := make([]int, n)
+	for i := range order {
+		order[i] = i
+	}
+	if sc.Rev {
+		for i := range order {
+			order[i] = n - 1 - i
+		}
+	}
+	bycap := map[int][]*chanimpl.Chan{}
+	for _, c := range sc.Caps {
+		bycap[c] = append(bycap[c], chanimpl.NewChan(elt, c))
+	}
+	// all Chan headers are the same size: allocate, then hand them out in address order
+	var all []*chanimpl.Chan
+	for _, l := range bycap {
+		all = append(all, l...)
+	}
+	sort.Slice(all, func(i, j int) bool { return uintptr(unsafe.Pointer(all[i])) < uintptr(unsafe.Pointer(all[j])) })
+	chans := make([]*chanimpl.Chan, n)
+	for rank, idx := range order {
+		// channel idx gets the rank-th smallest address; its capacity is installed afterwards
+		chans[idx] = all[rank]
+	}
 	for i, c := range sc.Caps {
-		chans[i] = chanimpl.NewChan(elt, c)
+		chanimpl.ResetCapForVerif(chans[i], elt, c)
 	}
 	var events []explore.Event
 	for ti := range sc.Threads {
